@@ -5,15 +5,35 @@ From BT Require Import Base.Prelude Heap.Dag Spec.PC10.
 
 Definition dlinks := list (list id * list id).   (* entry i: (parents, children) of object i *)
 
+(* one observation, delta-encoded by the harness to keep the literals small: number of objects
+   after the op, (object, its parents, its children) for every object whose lists differ from the
+   previous observation, outcome (0 = accepted, else the exception code) *)
+Definition dobs := (nat * list (id * (list id * list id)) * nat)%type.
+
 Record dcase := DC {
-  dc_assert : bool;                    (* checks on in the interpreter that produced dc_obs        *)
+  dc_assert : bool;                    (* checks on in the interpreter that produced dc_obs_raw    *)
   dc_n : nat;                          (* objects created (without arguments) before the history   *)
   dc_names : list str;
   dc_ops : list dop;
-  dc_obs : list (dlinks * nat);        (* after each op: links of all objects so far, outcome (0 = accepted) *)
+  dc_obs_raw : list dobs;              (* after each op: links of all objects so far, outcome      *)
   dc_anc : list (list id);             (* node.ancestors of every object after the history         *)
-  dc_off : list (dlinks * nat)         (* C20 only: the same history with BIGTREE_CONF_ASSERTIONS="" *)
+  dc_off_raw : list dobs               (* C20 only: the same history with BIGTREE_CONF_ASSERTIONS="" *)
 }.
+
+Definition apply_delta (prev : dlinks) (n : nat) (delta : list (id * (list id * list id))) : dlinks :=
+  map (fun x => match find (fun e => Nat.eqb (fst e) x) delta with
+                | Some e => snd e
+                | None => nth x prev ([], [])
+                end) (seq 0 n).
+
+Fixpoint decode_obs (prev : dlinks) (l : list dobs) : list (dlinks * nat) :=
+  match l with
+  | [] => []
+  | (n, delta, code) :: t => let cur := apply_delta prev n delta in (cur, code) :: decode_obs cur t
+  end.
+
+Definition dc_obs (c : dcase) : list (dlinks * nat) := decode_obs [] (dc_obs_raw c).
+Definition dc_off (c : dcase) : list (dlinks * nat) := decode_obs [] (dc_off_raw c).
 
 Definition tabn {A} (l : list A) (d : A) : id -> A := fun x => nth x l d.
 
